@@ -16,7 +16,7 @@ from black_it.samplers.random_uniform import RandomUniformSampler
 from black_it.schedulers.rl.agents.epsilon_greedy import MABEpsilonGreedy
 from black_it.schedulers.rl.envs.mab import MABCalibrationEnv
 from harness.calib import FreeLoss, ScriptedSampler, make_sampler_class, model_uf, world
-from harness.common import Case, f
+from harness.common import Case, f, inject
 from symx.core import Sym, lift
 
 LEVEL = "model_checking"
@@ -65,8 +65,8 @@ def case_rr_step(n):
                                parameters_bounds=[[0.0], [1.0]], parameters_precision=[0.25], ensemble_size=1, samplers=samplers,
                                verbose=False, random_state=ctx.int("seed", 0), n_jobs=1)
             b = ctx.int("b", 0)
-            c.scheduler._batch_id = b
-            c.current_batch_index = b
+            inject(c.scheduler, "_batch_id", b)
+            inject(c, "current_batch_index", b)
             c.calibrate(1)
             used = [i for i, s in enumerate(samplers) if s.calls > 0]
             ctx.prove(z3.BoolVal(len(used) == 1 and sum(s.calls for s in samplers) == 1), "rr_sampler_is_b_mod_n", "exactly one sampler invoked once")
